@@ -80,3 +80,19 @@ Definition known_mutation : list (string * string) := [
   ("ProximityTree", "random_state"); ("ProximityTree", "find_stump");
   ("ShapeDTW", "metric_params");
   ("_TSFreshFeatureExtractor", "n_jobs") ].
+
+(* (owner of the executed fit body, what the completing paths return, flag state): fit does not return
+   the estimator itself and / or never sets the fitted flag. *)
+Definition known_fit : list (string * string * string) := [
+  ("BaseStrategy", "self._fit(data)", "unset");
+  ("BaseStrategy", "self.estimator.fit(X, y)", "unset");
+  ("RotationForest", "none", "unset");
+  ("ShapeDTW", "self", "unset") ].
+
+(* Reported by the (syntactic) fit analysis but compliant: KNeighborsTimeSeriesClassifier.fit ends
+   `fx = self._fit(X); ...; self._is_fitted = True; return fx`, where `_fit` is scikit-learn 0.24's
+   NeighborsBase._fit, whose last statement is `return self` (read; not runnable under 1.7). *)
+Definition benign_fit : list (string * string * string) := [
+  ("KNeighborsTimeSeriesClassifier", "fx", "set") ].
+
+Definition fit_exceptions : list (string * string * string) := List.app known_fit benign_fit.
